@@ -219,12 +219,7 @@ def method_rule(prog, run):
             return None
         return [astq.src(e)]
     nm_ = 0
-    for ci in prog.classes.values():
-        if not ci.mod.startswith("pyoma2.algorithms"):
-            continue
-        m = ci.methods.get("run")
-        if m is None:
-            continue
+    for ci, m in prog.class_methods("pyoma2.algorithms", "run"):
         for callee, param in ((fi.qual, pm), ("pyoma2.functions.ssi.SSI_multi_setup", "method_hank")):
             for rec in astq.forwarded_args(prog, m, callee, depth=0):
                 a = rec["args"].get(param)
